@@ -114,7 +114,8 @@ def genotype(
         ]
         avail_genes = sorted(avail_genes)
     else:
-        avail_genes = gene_db.lower().split(",")
+        # (gene names are lower-cased where they are looked up; paths must be left alone)
+        avail_genes = gene_db.split(",")
     if len(avail_genes) != 1:
         res: Dict = {}
         for a in avail_genes:
